@@ -115,9 +115,13 @@ def pair_class(a, b) -> str:
 
 
 def safe_str(a):
+    """Printed form, or None when the printer cannot print the value (C06 reports printer
+    failures; here they only remove the 'printer distinguishes them' evidence)."""
     try:
         return str(a)
-    except NotImplementedError:
+    except RecursionError:
+        raise
+    except Exception:
         return None
 
 
